@@ -1,6 +1,7 @@
 mod c04;
 mod c05;
 mod c06;
+mod c08;
 mod c11;
 mod c12;
 mod c13;
@@ -28,6 +29,7 @@ fn main() {
         "C04" => c04::main(&args[1..]),
         "C05" => c05::main(&args[1..]),
         "C06" => c06::main(&args[1..]),
+        "C08" => c08::main(&args[1..]),
         "C11" => c11::main(&args[1..]),
         "C12" => c12::main(&args[1..]),
         "C13" => c13::main(&args[1..]),
